@@ -16,6 +16,7 @@ import (
 	"verif/internal/pdfw"
 
 	tabula "github.com/tsawler/tabula"
+	"github.com/tsawler/tabula/rag"
 	"github.com/tsawler/tabula/reader"
 )
 
@@ -346,6 +347,77 @@ func swapDoc(name string) *hdoc {
 	}}
 }
 
+// collDoc: operations on ONE chunk collection (the value Chunks() returns): every rendering and export of it gives the
+// same result whether it is the first thing done with the collection or follows other renderings of it - a rendering
+// reads the collection, it does not edit it.
+func errOf(err error) string {
+	if err == nil {
+		return ""
+	}
+	return errStr(err)
+}
+
+func collDoc(name string) *hdoc {
+	html := "<html><body><h1>Alpha</h1><p>first paragraph of alpha with some words</p><ul><li>one</li><li>two</li></ul><p>second paragraph of alpha</p>" +
+		"<h2>Beta</h2><p>beta text</p><table><tr><th>k</th><th>v</th></tr><tr><td>a</td><td>1</td></tr></table><p>after the table</p><h1>Gamma</h1><p>gamma text</p></body></html>"
+	ops := map[string]func(cc *rag.ChunkCollection) string{
+		"md": func(cc *rag.ChunkCollection) string { return cc.ToMarkdown() },
+		"mdopts": func(cc *rag.ChunkCollection) string {
+			o := rag.DefaultMarkdownOptions()
+			o.IncludeTableOfContents = true
+			return cc.ToMarkdownWithOptions(o)
+		},
+		"mdchunks": func(cc *rag.ChunkCollection) string { return strings.Join(cc.ToMarkdownChunks(), "\n----\n") },
+		"jsonl":    func(cc *rag.ChunkCollection) string { s, err := cc.ToJSONL(); return s + errOf(err) },
+		"json":     func(cc *rag.ChunkCollection) string { s, err := cc.ToJSON(); return s + errOf(err) },
+		"csv":      func(cc *rag.ChunkCollection) string { s, err := cc.ToCSV(); return s + errOf(err) },
+		"section": func(cc *rag.ChunkCollection) string {
+			var b strings.Builder
+			for _, t := range []string{"Alpha", "Beta", "Gamma"} {
+				fmt.Fprintf(&b, "%s:%d ", t, len(cc.FilterBySection(t).Chunks))
+			}
+			return b.String()
+		},
+		"chunk0md": func(cc *rag.ChunkCollection) string {
+			var b strings.Builder
+			for _, ch := range cc.Chunks {
+				b.WriteString(ch.ToMarkdown() + "\n----\n")
+			}
+			return b.String()
+		},
+	}
+	names := []string{"md", "mdopts", "mdchunks", "jsonl", "json", "csv", "section", "chunk0md"}
+	run := map[string]func() string{}
+	mk := func(before []string, op string) func() string {
+		return func() string {
+			var cc *rag.ChunkCollection
+			var err error
+			if name == "html" {
+				cc, _, err = tabula.FromHTMLString(html).Chunks()
+			} else {
+				cc, _, err = tabula.Open(docFilePaths[name]).Chunks()
+			}
+			if err != nil {
+				return errStr(err)
+			}
+			for _, b := range before {
+				ops[b](cc)
+			}
+			return ops[op](cc)
+		}
+	}
+	for _, op := range names {
+		run["coll-"+op] = mk(nil, op)
+		run["coll-"+op+"@2"] = mk([]string{op}, op)
+		for _, b := range []string{"md", "mdopts", "mdchunks", "jsonl", "section"} {
+			if b != op {
+				run["coll-"+op+"@after-"+b] = mk([]string{b}, op)
+			}
+		}
+	}
+	return &hdoc{name: "coll-" + name, run: run}
+}
+
 // handleDoc: operations on ONE open handle of the low-level reader and of the fluent API; "x@2" is the second
 // call of x on that handle and must give what the first call gives (also for documents whose page tree,
 // objects or streams are damaged, where the first call fails part-way).
@@ -555,6 +627,12 @@ func init() {
 		for _, n := range []string{"pdfA", "pdfA2", "pdfC"} {
 			if docFilePaths[n] != "" {
 				out = append(out, swapDoc(n))
+			}
+		}
+		out = append(out, collDoc("html"))
+		for _, n := range []string{"docx", "pdfC"} {
+			if docFilePaths[n] != "" {
+				out = append(out, collDoc(n))
 			}
 		}
 		for _, n := range []string{"pdfA", "pdfA2", "pdfB", "pdfB2", "pdfTie", "pdfSharedRes", "pdfManyFonts", "pdfHex", "pdfC", "pdfWide", "pdfStd", "docx", "xlsx", "pptx", "odt", "epub", "html", "bad", "trunc"} {
